@@ -47,7 +47,16 @@ def build_universe(desc):
             ns['__slots__'] = ()
         if d.get('iterable'):
             ns['__iter__'] = lambda self: iter(())
-        if d.get('abc'):
+        if d.get('duck_of'):
+            # a duck type in the style of glom's own _ObjStyleKeys: matched through a metaclass __instancecheck__ only
+            # (isinstance holds for instances of the listed classes, issubclass does not)
+            matches = tuple(classes[j] for j in d['duck_of'])
+
+            class DuckMeta(type):
+                def __instancecheck__(cls, obj, _m=matches):
+                    return isinstance(obj, _m) if _m else False
+            cls = DuckMeta('U%d' % i, (object,), {})
+        elif d.get('abc'):
             cls = abc.ABCMeta('U%d' % i, bases, ns)
         else:
             cls = type('U%d' % i, bases, ns)
@@ -99,6 +108,10 @@ class Gen:
             d = {'bases': sorted(bases, reverse=True), 'slots': r.random() < 0.15 and not bases,
                  'iterable': r.random() < 0.2, 'abc': False, 'virtual_of': []}
             desc.append(d)
+        if r.random() < 0.25 and n >= 2:
+            # the last class becomes a duck type matching the instances of one or two earlier classes
+            ks = r.sample(range(n - 1), min(n - 1, r.choice([1, 1, 2])))
+            desc[n - 1] = {'bases': [], 'slots': False, 'iterable': False, 'abc': False, 'virtual_of': [], 'duck_of': sorted(7 + k for k in ks)}
         if r.random() < 0.25:
             # one ABC with virtual members
             a = r.randrange(n)
@@ -132,6 +145,14 @@ class Gen:
                 events.append(['register', t, kws, r.random() < 0.2])
             else:
                 events.append(['lookup', r.choice(ops_avail), r.choice(list(range(7, 7 + n)) + [1, 2, 3])])
+        ducks = [7 + i for i, d in enumerate(desc) if d.get('duck_of')]
+        if ducks and r.random() < 0.7:
+            # a lookup that is answered (and cached) first, then the registration of a duck type matching that instance, then the
+            # same lookup again: the registration must take effect for it
+            dk = r.choice(ducks)
+            x = r.choice(desc[dk - 7]['duck_of'])
+            op = r.choice(['iterate', 'keys', 'get'])
+            events += [['lookup', op, x], ['register', dk, [op], r.random() < 0.3], ['lookup', op, x]]
         for t in range(7, 7 + n):
             events.append(['lookup', r.choice(ops_avail[:2]), t])
         return {'classes': desc, 'registry': reg, 'events': events}
